@@ -483,18 +483,30 @@ impl Check for PrefixCheck {
                         continue;
                     }
                     let p = &prefixes[*v];
-                    open_rw(&mut app, &case.paths[*v], case.single[*v]).set(&k.0, &val.0);
                     let mut rk = p.clone();
                     rk.extend_from_slice(&k.0);
                     model.insert(rk, val.0.clone());
+                    {
+                        // the same view object keeps working after a write: read back and iterate through it
+                        let mut st = open_rw(&mut app, &case.paths[*v], case.single[*v]);
+                        st.set(&k.0, &val.0);
+                        let back = st.get(&k.0);
+                        ensure!(back.as_deref() == Some(val.0.as_slice()), "C07:get-mismatch", "get({}) through the mutable view that has just set it returns {:?}", hexs(&k.0), back.as_deref().map(hexs));
+                        check_view_range(st.as_ref(), &model, p, None, None, k.0.len() % 2 == 1, "the mutable view object right after a set through it")?;
+                    }
                     check_raw(&app, &model, "after set through a view")?;
                 }
                 Op::Remove(v, k) => {
                     let p = &prefixes[*v];
-                    open_rw(&mut app, &case.paths[*v], case.single[*v]).remove(&k.0);
                     let mut rk = p.clone();
                     rk.extend_from_slice(&k.0);
                     model.remove(&rk);
+                    {
+                        let mut st = open_rw(&mut app, &case.paths[*v], case.single[*v]);
+                        st.remove(&k.0);
+                        ensure!(st.get(&k.0).is_none(), "C07:get-mismatch", "get({}) through the mutable view that has just removed it still returns a value", hexs(&k.0));
+                        check_view_range(st.as_ref(), &model, p, None, None, k.0.len() % 2 == 0, "the mutable view object right after a remove through it")?;
+                    }
                     check_raw(&app, &model, "after remove through a view")?;
                 }
                 Op::Range { view, ro, start, end, desc } => {
